@@ -139,7 +139,13 @@ def severity():
     sev = [(n, int(v)) for n, v in re.findall(r"(\w+) = (\d+),", m.group(1))]
     if not sev:
         raise TranslateError("BlockSeverity: no `Name = n` variants found")
-    insens = "ascii_case_insensitive" in blocks[max(0, m.start() - 200):m.start()]
+    # how names are matched is only read off a derived parser (`EnumString`, with or without `ascii_case_insensitive`); a
+    # hand-written `FromStr` is not understood: the last generated table is kept and compared with the live parser
+    head = blocks[max(0, m.start() - 300):m.start()]
+    attrs = head[head.rfind("\n\n") + 1:] if "\n\n" in head else head
+    if not re.search(r"#\[derive\([^)]*\bEnumString\b", attrs):
+        raise TranslateError("BlockSeverity: `FromStr` is not derived by strum's EnumString; how severity names are matched cannot be read off the source")
+    insens = "ascii_case_insensitive" in attrs
     return sev, insens
 
 def constraint_prefixes():
